@@ -47,6 +47,11 @@ type RunConfig struct {
 	StabiliseAt   int      `json:"stabilise_at"` // step at which phase 2 starts (0: never)
 	Mutation      string   `json:"mutation,omitempty"`
 	Director      string   `json:"director,omitempty"`
+	HasFocus       bool `json:"has_focus,omitempty"`
+	Focus          int  `json:"focus,omitempty"`
+	FocusRealTimer bool `json:"focus_real_timer,omitempty"`
+	LateResultPm, ReleasePm, ApiPm, HoldPm int
+	CancelAt       int  `json:"cancel_at,omitempty"`
 }
 
 type Limits struct {
